@@ -533,3 +533,24 @@ package runtime
 //@ ensures C07 found-fn: result1 ==> exists b int :: 0 <= b && b < len(mthds) && fmatch(mthds, b, im) && result0 == mthds[b].Ifn_
 //@ ensures C07 not-found-nil: !result1 ==> result0 == nil
 //@ modifies nothing
+
+// ---------------------------------------------------------------------------
+// select support: the one-shot notification flag of a blocked select. A
+// notification must never be discarded by the waiter: whenever wait() blocks,
+// it has not changed the flag since it acquired the lock; it returns only by
+// consuming a set flag.
+
+//@ func (*selectOp).notify
+//@ props C10
+//@ lock selectOp.mutex protects p.sem
+//@ requires p != nil
+//@ ensures C10 set: cs_new(p.sem)
+//@ modifies everything
+
+//@ func (*selectOp).wait
+//@ props C10
+//@ lock selectOp.mutex protects p.sem
+//@ lock selectOp.mutex wait_invariant not-consumed-before-sleep: cs_new(p.sem) == cs_old(p.sem)
+//@ requires p != nil
+//@ ensures C10 consumed: !cs_new(p.sem)
+//@ modifies everything
